@@ -115,6 +115,8 @@ pub fn build(dna: &[u16]) -> UCase {
     let mut bad: Vec<String> = Vec::new();
     if has_debug {
         attrs.push(dbg_attr.clone());
+        // the name-value short form has no room for `unsafe` at all
+        bad.push(["Debug = Shown", "Debug = \"Shown\"", "Debug = false", "Debug()"][sp as usize % 4].to_string());
         match name_param {
             None => bad.push("Debug".to_string()),
             Some(p) => {
